@@ -34,6 +34,53 @@ func replayFile(path string) {
 	os.Exit(1)
 }
 
+func init() {
+	replayers["sketch"] = func(cfg, cs json.RawMessage) string {
+		var sc SketchCfg
+		var beh []SkStep
+		if json.Unmarshal(cfg, &sc) != nil || json.Unmarshal(cs, &beh) != nil {
+			infraFail("bad sketch replay file")
+		}
+		if mm := replaySketch(beh, &sc); mm != nil {
+			return fmt.Sprintf("step %d: %s", mm.Step, mm.What)
+		}
+		return ""
+	}
+	replayers["wire"] = func(cfg, cs json.RawMessage) string {
+		var wc WireCfg
+		var c WireCase
+		if json.Unmarshal(cfg, &wc) != nil || json.Unmarshal(cs, &c) != nil {
+			infraFail("bad wire replay file")
+		}
+		if mm := replayWire(&c, &wc); mm != nil {
+			return fmt.Sprintf("cut %d: %s", mm.Cut, mm.What)
+		}
+		return ""
+	}
+	replayers["dataset"] = func(cfg, cs json.RawMessage) string {
+		var dc DsCfg
+		var beh []DsStep
+		if json.Unmarshal(cfg, &dc) != nil || json.Unmarshal(cs, &beh) != nil {
+			infraFail("bad dataset replay file")
+		}
+		if st, what := replayDataset(beh, &dc); what != "" {
+			return fmt.Sprintf("step %d: %s", st, what)
+		}
+		return ""
+	}
+	replayers["varint"] = func(cfg, cs json.RawMessage) string {
+		var v vecWord
+		if json.Unmarshal(cs, &v) != nil {
+			infraFail("bad varint replay file")
+		}
+		if v.Kind == "word" {
+			w, _ := checkWordVector(&v)
+			return w
+		}
+		return checkStringVector(&v)
+	}
+}
+
 var replayers = map[string]func(cfg, cs json.RawMessage) string{
 	"store": func(cfg, cs json.RawMessage) string {
 		var sc StoreCfg
